@@ -20,6 +20,9 @@ pub fn pool_case(data: &[u8]) -> Option<PoolCase> {
         open_is_ready: true,
         caller_host: 0,
         single_use: false,
+        holder_polls_ready: false,
+        ready_hides_close: false,
+        build_path: 0,
     };
     let mut ops = vec![];
     while !u.is_empty() && ops.len() < 160 {
